@@ -75,7 +75,7 @@ def _fresh_history(hist):
 
 # ------------------------------------------------------------------ replay on the real code
 
-def replay_history(model, cls="SinglePhaseReservoir", hist=()):
+def replay_history(model, cls="SinglePhaseReservoir", hist=(), pf0d=False):
     import numpy as np
     from bluebonnet.flow import reservoir as rr
     from .c04 import _real_fluid
@@ -91,7 +91,8 @@ def replay_history(model, cls="SinglePhaseReservoir", hist=()):
         sched = sched + np.array([0.0, -500.0, -900.0])[:len(sched)]
 
     def mk():
-        return rr.IdealReservoir(5, 1000.0, 8000.0, None) if fluid is None else rr.SinglePhaseReservoir(5, 1000.0, 8000.0, fluid)
+        pf_ = np.array(1000.0) if pf0d else 1000.0       # the documented type of the field is float | NDArray
+        return rr.IdealReservoir(5, pf_, 8000.0, None) if fluid is None else rr.SinglePhaseReservoir(5, pf_, 8000.0, fluid)
 
     def run(ops, state_after_first=False):
         o = mk()
@@ -159,7 +160,7 @@ def replay_history(model, cls="SinglePhaseReservoir", hist=()):
 
 # ------------------------------------------------------------------ job
 
-def job_histories(job, cls, L, chunk, nchunks):
+def job_histories(job, cls, L, chunk, nchunks, pf0d=False):
     mod = load_reservoir()
     job.encoded(mod, f"{cls}.simulate", "IdealReservoir.recovery_factor", "IdealReservoir.recovery_factor_interpolator")
     job.stub("linear solve: ideal, memoised on the syntactic system", "fluid*: contract stub with a 2-row (m-scaled, density) table",
@@ -183,7 +184,11 @@ def job_histories(job, cls, L, chunk, nchunks):
             pf, pi = fresh("pf", pos=True), fresh("pi", pos=True)
 
             def mk():
-                return mod.IdealReservoir(Q(nx), pf, pi, None) if fluid is None else mod.SinglePhaseReservoir(Q(nx), pf, pi, fluid)
+                # pf0d: the frac-face pressure is handed over as a 0-d float64 array (the field is documented float | NDArray);
+                # every object gets its own array
+                from ..shims.np_shim import ZeroD
+                pf_ = ZeroD(pf, "f8") if pf0d else pf
+                return mod.IdealReservoir(Q(nx), pf_, pi, None) if fluid is None else mod.SinglePhaseReservoir(Q(nx), pf_, pi, fluid)
             a = mk()
             ra = None
             since = {}          # op -> first result since the latest simulate (for "repeating a call returns the same result")
@@ -229,8 +234,8 @@ def job_histories(job, cls, L, chunk, nchunks):
                 job.errors.append(f"{cls} history {hist} raised {pr.exc!r}")
                 continue
             (ka, va), (kb, vb), sa, sb, repeats, follow = pr.value
-            name = f"{cls}/{'>'.join(hist)}[path{k}]"
-            rp = (replay_history, {"cls": cls, "hist": list(hist)})
+            name = f"{cls}{'[frac-face pressure a 0-d array]' if pf0d else ''}/{'>'.join(hist)}[path{k}]"
+            rp = (replay_history, {"cls": cls, "hist": list(hist), "pf0d": pf0d})
             checked += 1
             for n_, (at_times, rec) in enumerate(follow):
                 fname = f"{name}: interpolator call {n_ + 1} reproduces the recovery most recently returned at the simulated times"
@@ -287,4 +292,6 @@ def jobs(tier):
     for cls in ("SinglePhaseReservoir", "IdealReservoir"):
         for c in range(n):
             out.append((f"hist-{cls[:6]}-{c}", lambda j, cl=cls, c=c: job_histories(j, cl, L, c, n)))
+    for cls in ("IdealReservoir", "SinglePhaseReservoir"):
+        out.append((f"hist-0d-fracface-{cls[:6]}", lambda j, cl=cls: job_histories(j, cl, 3, 0, 1, pf0d=True)))
     return out
